@@ -75,6 +75,10 @@ func c01case(c GCase, a *run.Acc) {
 	wantEnds := rfe.Ends(c.NT, c.Pos)
 	rft := &refsem.Ref{G: g, In: c.In, Cap: 300}
 	treesOK := rft.Compute()
+	if rfe.Grey || rft.Grey {
+		a.Count("inconclusive:a typed terminal met a spelling its documented syntax is silent about", 1)
+		return
+	}
 	var wantTrees []string
 	if treesOK {
 		wantTrees = rft.Trees(c.NT, c.Pos)
@@ -329,6 +333,8 @@ func c01plan(tier string, seed int64) []run.Job {
 		jobs = append(jobs, run.Job{Family: "random", Seed: seed*100000 + 53000 + int64(i), N: per / 4, P: map[string]int{"strat": 1, "maxlen": 8, "inputs": 6, "suppress": 1}})
 		// grammars over string literals (terminal.String): a literal is read more than once at one position
 		jobs = append(jobs, run.Job{Family: "strings", Seed: seed*100000 + 58000 + int64(i), N: per / 4, P: map[string]int{"inputs": 6}})
+		// ... and over every other typed terminal (each returns a node type of its own)
+		jobs = append(jobs, run.Job{Family: "typed", Seed: seed*100000 + 59000 + int64(i), N: per / 4, P: map[string]int{"inputs": 6, "trims": 0}})
 		// lists built by a hand-written combinator, cached by Memoize and extended by several consumers at one position
 		jobs = append(jobs, run.Job{Family: "userlist", Seed: seed*100000 + 57000 + int64(i), N: per / 8, P: map[string]int{"inputs": 6}})
 	}
